@@ -369,6 +369,9 @@ func checkC16(c *Ctx) {
 	c.ruleRecordFromOwnLine("C16-R8", authPkg)
 	c.ruleEveryMatchingRecord("C16-R9", authPkg)
 	c.ruleMountPointNeverEmpty("C16-R10", authPkg)
+	c.ruleSessionIDNeverEmpty("C16-R11", authPkg)
+	c.ruleCredentialsReadOnly("C16-R12", authPkg)
+	c.ruleConfiguredCredentialsVerbatim("C16-R13", authPkg)
 
 	// R1: setup gating
 	c.checkSetupGating()
@@ -1224,4 +1227,215 @@ func (c *Ctx) ruleMountPointNeverEmpty(id string, authPkg string) {
 		}
 	}
 	ru.Check(bad == "" && n > 0, "mount point of the records built by "+c.fname(fh), c.whereF(fh), fmt.Sprintf("%d store(s), each a non-empty constant or a value tested non-empty", n), bad+map[bool]string{true: "", false: "no record mount point is stored"}[n > 0 || bad != ""])
+}
+
+// ruleSessionIDNeverEmpty implements C16-R11: an accepted principal always carries a session identifier. The identifier
+// is the key of the session record, of its subscriptions and of its in-flight entries; the merge routines refuse an
+// entry whose identifier is empty — together with the rest of the batch or snapshot it travels in.
+func (c *Ctx) ruleSessionIDNeverEmpty(id string, authPkg string) {
+	ru := c.R.Rule(id, "every path on which an authentication handler accepts (nil error) returns a Principal whose ID is not empty: a generated identifier, a non-empty constant, or a value tested against \"\" on the way (an identifier taken as it comes from an external service may be empty: the session is then stored and announced under the key \"\", which every other node refuses, dropping the remainder of the batch or snapshot)", "E1 paths of each Authenticate implementation + field-sensitive resolution of the returned identifier", 2)
+	am := c.P.IfaceMethod(authPkg, "AuthenticationHandler", "Authenticate")
+	if !ru.Anchor(am != nil, "auth.AuthenticationHandler.Authenticate") {
+		return
+	}
+	isEmptyConst := func(v ssa.Value) bool {
+		k, ok := v.(*ssa.Const)
+		return ok && k.Value != nil && k.Value.Kind() == constant.String && constant.StringVal(k.Value) == ""
+	}
+	var nonEmpty func(p *core.Path, v ssa.Value, before int, depth int) bool
+	nonEmpty = func(p *core.Path, v ssa.Value, before int, depth int) bool {
+		if depth > 4 || v == nil {
+			return false
+		}
+		isGenerator := func(x *ssa.Call) bool {
+			// the module's identifier generator: no input, a string out
+			if g := x.Call.StaticCallee(); g != nil && g.Pkg != nil && c.P.IsModPkg(g.Pkg.Pkg) && len(g.Params) == 0 && g.Signature.Results().Len() == 1 {
+				if b, ok := g.Signature.Results().At(0).Type().Underlying().(*types.Basic); ok && b.Kind() == types.String {
+					return true
+				}
+			}
+			return false
+		}
+		if cv, ok := core.Strip(v).(*ssa.Call); ok && isGenerator(cv) {
+			return true // judged before the generator's body is spliced in
+		}
+		v = core.Strip(p.Resolve(core.Strip(v)))
+		switch x := v.(type) {
+		case *ssa.Const:
+			return x.Value != nil && x.Value.Kind() == constant.String && constant.StringVal(x.Value) != ""
+		case *ssa.Call:
+			if isGenerator(x) {
+				return true
+			}
+			// the module's identifier generator: no input, a string out
+			if g := x.Call.StaticCallee(); g != nil && g.Pkg != nil && c.P.IsModPkg(g.Pkg.Pkg) && len(g.Params) == 0 && g.Signature.Results().Len() == 1 {
+				if b, ok := g.Signature.Results().At(0).Type().Underlying().(*types.Basic); ok && b.Kind() == types.String {
+					return true
+				}
+			}
+		case *ssa.UnOp:
+			fa, ok := x.X.(*ssa.FieldAddr)
+			if x.Op != token.MUL || !ok {
+				return false
+			}
+			sameCell := func(o *ssa.FieldAddr) bool {
+				return o.Field == fa.Field && core.Strip(p.Resolve(o.X)) == core.Strip(p.Resolve(fa.X))
+			}
+			flat := p.Instrs()
+			at := len(flat)
+			for i, pi := range flat {
+				if pi.In == ssa.Instruction(x) {
+					at = i
+				}
+			}
+			if before >= 0 && before < at {
+				at = before
+			}
+			// the last value stored into that field before the read
+			for i := at - 1; i >= 0; i-- {
+				if st, ok := flat[i].In.(*ssa.Store); ok {
+					if o, ok := st.Addr.(*ssa.FieldAddr); ok && sameCell(o) {
+						return nonEmpty(p, st.Val, i, depth+1)
+					}
+				}
+			}
+			// never stored on this path: tested against "" ?
+			for _, d := range decisions(p) {
+				bo, ok := d.Cond.(*ssa.BinOp)
+				if !ok || (bo.Op != token.EQL && bo.Op != token.NEQ) {
+					continue
+				}
+				for _, pair := range [][2]ssa.Value{{bo.X, bo.Y}, {bo.Y, bo.X}} {
+					ld, ok := core.Strip(pair[0]).(*ssa.UnOp)
+					if !ok || ld.Op != token.MUL || !isEmptyConst(pair[1]) {
+						continue
+					}
+					if o, ok := ld.X.(*ssa.FieldAddr); ok && sameCell(o) && d.Val == (bo.Op == token.NEQ) {
+						return true
+					}
+				}
+			}
+		}
+		return false
+	}
+	for _, f := range c.P.Implementations(am) {
+		if f.Pkg == nil || !c.P.IsModPkg(f.Pkg.Pkg) || c.P.IsGenerated(f) || len(f.Blocks) == 0 {
+			continue
+		}
+		c.R.Fn(c.fname(f))
+		key := "identifier of the principal accepted by " + c.fname(f)
+		paths, err := c.pathsInlinedPkg(f, core.PathOpts{}, nil)
+		if err != nil {
+			ru.Undecided(key, c.whereF(f), err.Error())
+			continue
+		}
+		n, bad := 0, ""
+		for _, p := range paths {
+			r, ok := p.Exit.(*ssa.Return)
+			if !ok || len(r.Results) != 2 {
+				continue
+			}
+			if isNil, known := p.ReturnsNilError(); !known || !isNil {
+				continue
+			}
+			n++
+			idv := c.principalField(p, r.Results[0], "ID")
+			if idv == nil || !nonEmpty(p, idv, -1, 0) {
+				what := "?"
+				if idv != nil {
+					what = short(core.Term(idv), 60)
+				}
+				bad = "an accepting path returns the identifier " + what + " without having made sure it is not empty: " + fmtPath(p, c.P)
+			}
+		}
+		ru.Check(bad == "" && n > 0, key, c.whereF(f), fmt.Sprintf("%d accepting path(s), each returns a non-empty identifier", n), bad+map[bool]string{true: "", false: " no accepting path"}[n > 0])
+	}
+}
+
+// ruleCredentialsReadOnly implements C16-R12: no function of wasp/auth writes through a byte-slice parameter. The
+// username and the password of a CONNECT are sub-slices of one packet buffer: a helper that reuses its argument as
+// scratch space (h.Sum(buf[:0]), append(buf[:0], …), copy(buf, …)) while fingerprinting the username overwrites the
+// password that is compared next.
+func (c *Ctx) ruleCredentialsReadOnly(id string, authPkg string) {
+	ru := c.R.Rule(id, "the functions of wasp/auth never write through a []byte parameter: no element store, no copy into it, no append onto a re-slice of it, and no zero-length re-slice of it handed to another function as a buffer (the presented username and password share one packet buffer: reusing the first as scratch space corrupts the second before it is compared)", "E11 who-may-write on the byte-slice parameters of the package (positive control: such parameters counted)", 1)
+	n, bad := 0, ""
+	for _, f := range c.P.ModFuncs() {
+		if f.Package() == nil || f.Package().Pkg.Path() != c.P.Rel(authPkg) || c.P.IsGenerated(f) {
+			continue
+		}
+		for _, prm := range f.Params {
+			sl, ok := prm.Type().Underlying().(*types.Slice)
+			if !ok {
+				continue
+			}
+			if b, ok := sl.Elem().Underlying().(*types.Basic); !ok || b.Kind() != types.Byte {
+				continue
+			}
+			n++
+			c.R.Fn(c.fname(f))
+			isPrm := func(v ssa.Value) bool { return core.Strip(v) == ssa.Value(prm) }
+			for _, b := range f.Blocks {
+				for _, in := range b.Instrs {
+					switch x := in.(type) {
+					case *ssa.Store:
+						if ia, ok := x.Addr.(*ssa.IndexAddr); ok && isPrm(ia.X) {
+							bad = "an element of the parameter " + prm.Name() + " is overwritten at " + c.whereI(x)
+						}
+					case *ssa.Slice:
+						if !isPrm(x.X) || x.High == nil || x.Referrers() == nil {
+							continue
+						}
+						if k, ok := x.High.(*ssa.Const); !ok || k.Value == nil || k.Int64() != 0 {
+							continue
+						}
+						// p[:0] keeps the capacity: whoever receives it appends into the caller's buffer
+						for _, r := range *x.Referrers() {
+							if cl := core.CallOf(r); cl != nil {
+								bad = "the parameter " + prm.Name() + " is handed out as an empty buffer with its capacity (" + prm.Name() + "[:0]) at " + c.whereI(r) + ": what is appended lands in the caller's slice"
+							}
+						}
+					}
+					if cl := core.CallOf(in); cl != nil && cl.Builtin() == "copy" && len(cl.Common.Args) == 2 && isPrm(cl.Common.Args[0]) {
+						bad = "copy into the parameter " + prm.Name() + " at " + c.whereI(in)
+					}
+				}
+			}
+		}
+	}
+	ru.Check(bad == "" && n > 0, "byte-slice parameters of wasp/auth", "-", fmt.Sprintf("%d parameter(s), none written through", n), bad)
+}
+
+// ruleConfiguredCredentialsVerbatim implements C16-R13: the configured credentials reach the handler constructors as
+// they were read: no string transformation (trimming, case folding, replacing) between the configuration getter and
+// StaticHandler / FileHandler. A trimmed password admits a candidate the operator never configured and refuses the
+// configured one.
+func (c *Ctx) ruleConfiguredCredentialsVerbatim(id string, authPkg string) {
+	ru := c.R.Rule(id, "what the operator configured is what the credential handlers are built from: the arguments of auth.StaticHandler / auth.FileHandler at their call sites in the module do not pass through a function of package strings, bytes or unicode (a trimmed or case-folded password admits a pair that was never configured and refuses the configured one)", "E3 provenance of the constructor arguments (positive control: call sites counted)", 1)
+	n, bad := 0, ""
+	for _, name := range []string{"StaticHandler", "FileHandler"} {
+		h := c.P.Func(authPkg, name)
+		if h == nil {
+			continue
+		}
+		for _, site := range c.P.StaticCallers(h) {
+			n++
+			c.R.Fn(c.fname(site.Parent()))
+			for _, a := range site.Common().Args {
+				depReaches(a, func(v ssa.Value) bool {
+					cv, ok := v.(*ssa.Call)
+					if !ok {
+						return false
+					}
+					if g := cv.Call.StaticCallee(); g != nil && g.Pkg != nil {
+						switch g.Pkg.Pkg.Path() {
+						case "strings", "bytes", "unicode":
+							bad = "an argument of auth." + name + " at " + c.whereI(site) + " passes through " + g.Pkg.Pkg.Path() + "." + g.Name() + ": the handler is built from something else than what was configured"
+						}
+					}
+					return false
+				})
+			}
+		}
+	}
+	ru.Check(bad == "" && n > 0, "call sites of the credential handler constructors", "-", fmt.Sprintf("%d call site(s), arguments handed over verbatim", n), bad+map[bool]string{true: "", false: " no call site of StaticHandler / FileHandler in the module"}[n > 0])
 }
